@@ -220,7 +220,7 @@ func cmdCheck(args []string) int {
 	// functions under contract for this property
 	var keys []string
 	for k, fc := range v.specs.Funcs {
-		if hasProp(fc.Props, prop) && !fc.Trusted && (!fc.NoVerify || len(fc.Flows) > 0) {
+		if (hasProp(fc.Props, prop) || clauseHasProp(fc, prop)) && !fc.Trusted && (!fc.NoVerify || len(fc.Flows) > 0) {
 			keys = append(keys, k)
 		}
 	}
@@ -287,6 +287,10 @@ func cmdCheck(args []string) int {
 			}
 			for _, o := range r.Obls {
 				if o.Props != nil && !hasProp(o.Props, prop) {
+					continue
+				}
+				// an obligation without a tag of its own belongs to the properties named on the function header
+				if o.Props == nil && !hasProp(vc.Props, prop) {
 					continue
 				}
 				obls = append(obls, o)
@@ -647,6 +651,21 @@ func cmdCheck(args []string) int {
 		os.RemoveAll(workDir)
 	}
 	return exit
+}
+
+// clauseHasProp: a clause of the contract is tagged with the property although the function header is not
+func clauseHasProp(fc *FuncContract, prop string) bool {
+	for _, cl := range fc.Clauses {
+		if hasProp(cl.Props, prop) {
+			return true
+		}
+	}
+	for _, fl := range fc.Flows {
+		if hasProp(fl.Props, prop) {
+			return true
+		}
+	}
+	return false
 }
 
 func countNonTrivial(qs []*Query) int {
